@@ -68,6 +68,9 @@ func wellFormed(src, sql string) (sig, detail string) {
 				used[s.Table] = true
 				continue
 			}
+			if srcNames[s.Table] {
+				continue // the user's own table, even if it is spelled like a generated name
+			}
 			if _, ok := defined[s.Table]; ok {
 				return "cte:forward-reference", fmt.Sprintf("query %d reads common table expression %q which is not defined earlier\nsql: %s", idx, s.Table, sql)
 			}
@@ -185,6 +188,16 @@ func c05Main(r *run.Runner) {
 				wides = append(wides, f.text(k), "U | join kind=inner ("+f.text(k)+") on k | count")
 			}
 		}
+	}
+	// user names spelled like generated names
+	for _, n := range []string{"__subquery0", "__subquery1", "__subquery2", "__subquery10"} {
+		wides = append(wides,
+			n+" | where a > 1 | project a | count",
+			"T | where a > 1 | join kind=leftouter ("+n+" | where b > 0) on k | project a | count",
+			"T | as "+n+" | where a | project b | count",
+			"T | where a | as "+n+" | join ("+n+") on k | take 1",
+			"T | project "+n+" = a | sort by "+n+" | take 2 | where "+n+" > 1",
+		)
 	}
 	r.Sweep("wide", int64(len(wides)), func(w *run.Worker, item int64) { c05One(w, wides[item]) })
 	// programs with bindings: every use site of C06 (operand positions, list elements first / middle / last, row counts,
